@@ -110,8 +110,31 @@ class MXCSRRegister:
         return f"{type(self).__name__}[{FZ=} {RN=} {DAZ=} {DE=}]"
 
     def __call__(self, FZ=None, DAZ=None, RN=None):
+        if RN is not None:
+            # validate eagerly, the register is modified only when entering the context
+            dict(nearest=0, down=1, up=2, towardszero=3)[RN]
 
-        current = self.get_mxcsr()
+        class context(contextlib.ContextDecorator):
+            def __init__(self, register):
+                self.register = register
+                self.saved_state = None
+
+            def __enter__(self):
+                assert self.saved_state is None
+                self.saved_state = self.register.get_mxcsr()
+                # Modify only the requested bits of the register value
+                # that is current when entering the context, otherwise
+                # nested contexts would reset each others bits.
+                self.register.set_mxcsr(self.register._get_modified_state(self.saved_state, FZ=FZ, DAZ=DAZ, RN=RN))
+
+            def __exit__(self, exc_type, exc, exc_tb):
+                assert self.saved_state is not None
+                self.register.set_mxcsr(self.saved_state)
+                self.saved_state = None
+
+        return context(self)
+
+    def _get_modified_state(self, current, FZ=None, DAZ=None, RN=None):
         new_value = current.value
 
         if RN is not None:
@@ -143,22 +166,4 @@ class MXCSRRegister:
             else:
                 new_value &= ~(1 << 6)
 
-        new = ctypes.c_uint32(new_value)
-
-        class context(contextlib.ContextDecorator):
-            def __init__(self, register, desired_state):
-                self.register = register
-                self.saved_state = None
-                self.desired_state = desired_state
-
-            def __enter__(self):
-                assert self.saved_state is None
-                self.saved_state = self.register.get_mxcsr()
-                self.register.set_mxcsr(self.desired_state)
-
-            def __exit__(self, exc_type, exc, exc_tb):
-                assert self.saved_state is not None
-                self.register.set_mxcsr(self.saved_state)
-                self.saved_state = None
-
-        return context(self, new)
+        return ctypes.c_uint32(new_value)
